@@ -5,7 +5,9 @@ import c18
 
 
 def build(tier, seed):
-    so = omask("REPEAT", "CONTENT", "FLOW")
+    # TRIGGER: the emission of a burst takes (N copies x 1 ms) of virtual time (sleep stub advances the clock); the
+    # retransmission timer must run from the END of the emission (seeded change C16d-a armed it before)
+    so = omask("REPEAT", "CONTENT", "FLOW", "TRIGGER")
     ro = omask("REPEAT", "STORE", "ACKCAD")
     I = []
     sshapes = [(2, 1, 1, 2), (2, 2, 1, 3), (3, 1, 0, 3), (2, 3, 1, 4)]
